@@ -82,3 +82,22 @@ Definition check_ocase (t : mtable) (deny : list method) (c : ocase) : bool :=
 
 Definition bad_ocases (t : mtable) (deny : list method) (cs : list ocase) : list N :=
   map oc_id (filter (fun c => negb (check_ocase t deny c)) cs).
+
+(* configuration cases: validate_config called directly, and the public start() on a fresh
+   directory and a free port (so the only thing that can refuse is the configuration) *)
+Record ccase := {
+  cc_id : N;
+  cc_cfg : config;
+  cc_validate_ok : bool;            (* validate_config(&cfg).is_ok() *)
+  cc_start : option bool            (* Some (start(cfg).is_ok()) where start() was tried *)
+}.
+
+Definition check_ccase (c : ccase) : bool :=
+  Bool.eqb (is_ok (validate_config (cc_cfg c))) (cc_validate_ok c)
+  && match cc_start c with
+     | None => true
+     | Some ok => Bool.eqb ok (is_ok (validate_config (cc_cfg c)) && is_ok (make_auth (fun s => s) (cc_cfg c)))
+     end.
+
+Definition bad_ccases (cs : list ccase) : list N :=
+  map cc_id (filter (fun c => negb (check_ccase c)) cs).
